@@ -31,6 +31,10 @@ import (
 
 //go:norace
 func (c *Conn) newToWriteBuf(buf []byte) {
+	if len(buf) == 0 {
+		// an empty entry could never be flushed (a zero-length write makes no progress).
+		return
+	}
 	c.left += len(buf)
 
 	allocator := c.p.g.BodyAllocator
